@@ -70,7 +70,11 @@ func runC19(c *Ctx, r *Report) {
 	r.Doc("R-C19.4", "clock comparison is antisymmetric and transitive and ordered by time first")
 	r.Doc("R-C19.5", "Sort's less is f<0 (f>0 when reversed) of the given comparator on (values[i], values[j]); errors map to false")
 	r.Doc("R-C19.6", "no comparator result depends on whether the integer subtraction of clock times overflowed or produced the most negative integer")
+	r.Doc("R-C19.7", "the comparators' nil guard is a nil guard: (*Entry).Defined depends on nothing but the entry existing")
+	r.Doc("R-C19.8", "both sides of a comparison see the same numbers: the clock's getters return their field, its constructor and copy keep their arguments")
 
+	definedReadsNothing(c, r, "R-C19.7")
+	clockValueObject(c, r, "R-C19.8")
 	// implementers
 	cg := c.CG
 	entryImp := p.Named("entry", "Entry")
